@@ -430,7 +430,7 @@ theorem step_get_start (R : Route) (i : Nat) (ft : Option Tier) (σ : St) (t : T
       | none =>
         if (R.pe && !R.passErr) = true then (σ, { t with pc := .readP })
         else (σ, { finish t .nf with rver := some (σ.cell R.ck).ver }) := by
-  obtain ⟨op, pc, inv, ret, res, cver, rver⟩ := t
+  obtain ⟨op, pc, inv, ret, res, cver, rver, node⟩ := t
   simp only at hpc hop
   subst hpc; subst hop
   simp only [stepThread, hfc, Bool.false_eq_true, ↓reduceIte]
@@ -445,7 +445,7 @@ theorem step_get_readP (R : Route) (i : Nat) (ft : Option Tier) (σ : St) (t : T
       else match σ.p.val with
         | none => (unlock σ, { finish t .nf with rver := some σ.p.ver })
         | some v => ({ σ with lock := some i }, { t with pc := .wb v σ.p.ver }) := by
-  obtain ⟨op, pc, inv, ret, res, cver, rver⟩ := t
+  obtain ⟨op, pc, inv, ret, res, cver, rver, node⟩ := t
   simp only at hpc hop
   subst hpc; subst hop
   simp only [stepThread]
@@ -457,7 +457,7 @@ theorem step_get_wb (R : Route) (i : Nat) (ft : Option Tier) (σ : St) (t : Thre
     (hop : t.op = .get) (hpc : t.pc = .wb v ver) (hfc : fails ft R.ck = false) :
     ((stepThread true R i ft σ t).st, (stepThread true R i ft σ t).th) =
       (unlock (σ.setCell R.ck ⟨some v, R.wbTTL, ver⟩), { finish t (.val v) with rver := some ver }) := by
-  obtain ⟨op, pc, inv, ret, res, cver, rver⟩ := t
+  obtain ⟨op, pc, inv, ret, res, cver, rver, node⟩ := t
   simp only at hpc hop
   subst hpc; subst hop
   simp [stepThread, hfc, readRes]
@@ -468,7 +468,7 @@ theorem step_ex_start (R : Route) (i : Nat) (ft : Option Tier) (σ : St) (t : Th
       if (σ.cell R.ck).val.isSome = true then (σ, { finish t (.bool true) with rver := some (σ.cell R.ck).ver })
       else if (R.pe && !R.passErr) = true then (σ, { t with pc := .exP })
       else (σ, { finish t (.bool false) with rver := some (σ.cell R.ck).ver }) := by
-  obtain ⟨op, pc, inv, ret, res, cver, rver⟩ := t
+  obtain ⟨op, pc, inv, ret, res, cver, rver, node⟩ := t
   simp only at hpc hop
   subst hpc; subst hop
   simp only [stepThread, hfc, Bool.false_eq_true, ↓reduceIte]
@@ -481,7 +481,7 @@ theorem step_ex_exP (R : Route) (i : Nat) (ft : Option Tier) (σ : St) (t : Thre
     ((stepThread true R i ft σ t).st, (stepThread true R i ft σ t).th) =
       if fails ft .persistent = true then (σ, finish t .err)
       else (σ, { finish t (.bool σ.p.val.isSome) with rver := some σ.p.ver }) := by
-  obtain ⟨op, pc, inv, ret, res, cver, rver⟩ := t
+  obtain ⟨op, pc, inv, ret, res, cver, rver, node⟩ := t
   simp only at hpc hop
   subst hpc; subst hop
   simp only [stepThread]
@@ -490,7 +490,7 @@ theorem step_ex_exP (R : Route) (i : Nat) (ft : Option Tier) (σ : St) (t : Thre
 theorem step_set_start (R : Route) (i : Nat) (ft : Option Tier) (σ : St) (t : Thread) (v : Val) (ttl : Nat)
     (hop : t.op = .set v ttl) (hpc : t.pc = .start) :
     stepThread true R i ft σ t = writeStep R i ft { σ with lock := some i } t v ttl := by
-  obtain ⟨op, pc, inv, ret, res, cver, rver⟩ := t
+  obtain ⟨op, pc, inv, ret, res, cver, rver, node⟩ := t
   simp only at hpc hop
   subst hpc; subst hop
   simp [stepThread]
@@ -500,7 +500,7 @@ theorem step_set_writeC (R : Route) (i : Nat) (ft : Option Tier) (σ : St) (t : 
     (hop : t.op = .set v0 ttl0) (hpc : t.pc = .writeC v ttl ver) (hfc : fails ft R.ck = false) :
     ((stepThread true R i ft σ t).st, (stepThread true R i ft σ t).th) =
       (unlock (σ.setCell R.ck ⟨some v, ttl, ver⟩), finish t .ok) := by
-  obtain ⟨op, pc, inv, ret, res, cver, rver⟩ := t
+  obtain ⟨op, pc, inv, ret, res, cver, rver, node⟩ := t
   simp only at hpc hop
   subst hpc; subst hop
   simp [stepThread, hfc]
@@ -513,7 +513,7 @@ theorem step_del_start (R : Route) (i : Nat) (ft : Option Tier) (σ : St) (t : T
       else
         (unlock (({ σ with nver := σ.nver + 1 } : St).setCell R.ck ⟨none, 0, σ.nver + 1⟩),
           { finish t .ok with cver := some (σ.nver + 1) }) := by
-  obtain ⟨op, pc, inv, ret, res, cver, rver⟩ := t
+  obtain ⟨op, pc, inv, ret, res, cver, rver, node⟩ := t
   simp only at hpc hop
   subst hpc; subst hop
   simp only [stepThread, hfc, Bool.false_eq_true, ↓reduceIte]
@@ -525,7 +525,7 @@ theorem step_del_delP (R : Route) (i : Nat) (ft : Option Tier) (σ : St) (t : Th
       if fails ft .persistent = true then (unlock σ, finish t .err)
       else (unlock { σ with p := ⟨none, 0, σ.nver + 1⟩, nver := σ.nver + 1 },
             { finish t (if cerr then .err else .ok) with cver := some (σ.nver + 1) }) := by
-  obtain ⟨op, pc, inv, ret, res, cver, rver⟩ := t
+  obtain ⟨op, pc, inv, ret, res, cver, rver, node⟩ := t
   simp only at hpc hop
   subst hpc; subst hop
   simp only [stepThread]
@@ -1062,15 +1062,80 @@ theorem finv_now {R : Route} {init : Option Val} {cfg : Cfg} (h : FInv R init cf
   ⟨h.kinds, fun i t ht => timeOK_mono (h.time i t ht), h.facts, h.holder, h.owned, h.coh, h.curver, h.curval,
    h.ckval, h.cvr, h.inj, h.rd, h.fresh, h.owner, h.order⟩
 
+theorem kvFacts_evict {R : Route} {σ : St} {t : Tier} {th : Thread} (ht : t ≠ .persistent)
+    (h : kvFacts R σ th) : kvFacts R (σ.setCell t ⟨none, 0, (σ.cell t).ver⟩) th := by
+  have hp : (σ.setCell t ⟨none, 0, (σ.cell t).ver⟩).p = σ.p := p_setCell _ _ _ ht
+  have hck : ((σ.setCell t ⟨none, 0, (σ.cell t).ver⟩).cell R.ck).val = none ∨
+      (σ.setCell t ⟨none, 0, (σ.cell t).ver⟩).cell R.ck = σ.cell R.ck := by
+    by_cases htc : t = R.ck
+    · subst htc; left; simp
+    · right; exact cell_setCell_ne _ _ _ _ htc
+  unfold kvFacts at *
+  cases hpc : th.pc <;> simp only [hpc] at h ⊢ <;> try exact h
+  · obtain ⟨h1, h2, h3, h4, h5, h6⟩ := h
+    refine ⟨h1, h2, by simpa using h3, by rw [hp]; exact h4, ?_, h6⟩
+    rcases hck with hh | hh
+    · exact Or.inl hh
+    · rw [hh, nver_setCell]; exact h5
+  · obtain ⟨h1, h2, h3, h4, h5, h6⟩ := h
+    refine ⟨h1, h2, by simpa using h3, by simpa using h4, ?_, h6⟩
+    rcases hck with hh | hh
+    · exact Or.inl hh
+    · rw [hh, nver_setCell]; exact h5
+  · obtain ⟨h1, h2, h3, h4, h5⟩ := h
+    refine ⟨h1, h2, h3, ?_, h5⟩
+    rcases hck with hh | hh
+    · exact hh
+    · rw [hh]; exact h4
+
+theorem finv_evict {R : Route} {init : Option Val} {cfg : Cfg} (h : FInv R init cfg) {t : Tier}
+    (ht : t ≠ .persistent) (hpe : R.pe = true) :
+    FInv R init { cfg with st := cfg.st.setCell t ⟨none, 0, (cfg.st.cell t).ver⟩, now := cfg.now + 1 } := by
+  have hp : (cfg.st.setCell t ⟨none, 0, (cfg.st.cell t).ver⟩).p = cfg.st.p := p_setCell _ _ _ ht
+  have hcur : curCell R (cfg.st.setCell t ⟨none, 0, (cfg.st.cell t).ver⟩) = curCell R cfg.st := by
+    simp [curCell, hpe, hp]
+  refine ⟨h.kinds, fun i th hth => timeOK_mono (h.time i th hth),
+    fun i th hth => kvFacts_evict ht (h.facts i th hth),
+    fun i th hth hcs => by show (St.setCell _ _ _).lock = some i; rw [lock_setCell]; exact h.holder i th hth hcs,
+    fun i hi => h.owned i (by simpa using hi), ?_, by show (curCell R _).ver = _; rw [hcur, nver_setCell]; exact h.curver,
+    by show VV _ _ (St.setCell _ _ _).nver (curCell R _).val; rw [hcur, nver_setCell]; exact h.curval, ?_,
+    fun i th hth n hn => by
+      have := h.cvr i th hth n hn
+      exact ⟨this.1, by show n ≤ (St.setCell _ _ _).nver; rw [nver_setCell]; exact this.2.1, this.2.2⟩,
+    h.inj,
+    fun i r hr m hm => by
+      obtain ⟨h1, h2⟩ := h.rd i r hr m hm
+      exact ⟨by show m ≤ (St.setCell _ _ _).nver; rw [nver_setCell]; exact h1, h2⟩,
+    h.fresh, h.owner, h.order⟩
+  · intro _ hl
+    show ((St.setCell _ _ _).cell R.ck).val = none ∨ ((St.setCell _ _ _).cell R.ck).ver = (St.setCell _ _ _).nver
+    by_cases htc : t = R.ck
+    · subst htc; left; simp
+    · rw [cell_setCell_ne _ _ _ _ htc, nver_setCell]
+      exact h.coh hpe (by simpa using hl)
+  · intro _ v hv
+    show VV _ _ ((St.setCell _ _ _).cell R.ck).ver (some v) ∧ ((St.setCell _ _ _).cell R.ck).ver ≤ (St.setCell _ _ _).nver
+    have hv' : ((cfg.st.setCell t ⟨none, 0, (cfg.st.cell t).ver⟩).cell R.ck).val = some v := hv
+    by_cases htc : t = R.ck
+    · subst htc; simp at hv'
+    · rw [cell_setCell_ne _ _ _ _ htc] at hv' ⊢
+      rw [nver_setCell]
+      exact h.ckval hpe v hv'
+
 theorem finv_stepCfg (R : Route) (hck : R.ck ≠ .persistent) (hpp : R.pe = true → R.passErr = false)
-    (init : Option Val) (cfg : Cfg) (e : Entry) (hpf : PFault e.fault) (hnow : 1 ≤ cfg.now)
+    (init : Option Val) (cfg : Cfg) (e : Entry) (hpf : PFault e.fault) (hev : EvictOK R e) (hn : Nodes0 cfg)
+    (hnow : 1 ≤ cfg.now)
     (h : FInv R init cfg) : FInv R init (stepCfg .repaired R cfg e) := by
-  rcases stepCfg_cases .repaired R cfg e with heq | ⟨th, hth, hen, heq⟩
+  rcases stepCfg_cases0 .repaired R cfg e hn with heq | ⟨t, het, heq⟩ | ⟨th, hth, hen, heq⟩
   · rw [heq]; exact finv_now h
+  · rw [heq]
+    obtain ⟨h0, htp, hpe⟩ := hev t het
+    rw [h0, evictCell_zero]
+    exact finv_evict h htp hpe
   · rw [heq]
     simp only [Variant.lk] at hen ⊢
     rw [stepThread_spawn_repaired]
-    simp only [Option.toList]
+    simp only [Option.map_none, Option.toList]
     apply finv_update h hnow hth
     show KStep R init cfg e.tid th (stepThread true R e.tid e.fault cfg.st (th0 th cfg.now)).st
       (stepThread true R e.tid e.fault cfg.st (th0 th cfg.now)).th
@@ -1124,17 +1189,19 @@ theorem finv_stepCfg (R : Route) (hck : R.ck ≠ .persistent) (hpp : R.pe = true
       | expW a b c => simp [kvFacts, hpc] at hf
 
 theorem stepCfg_now (V : Variant) (R : Route) (cfg : Cfg) (e : Entry) : (stepCfg V R cfg e).now = cfg.now + 1 := by
-  rcases stepCfg_cases V R cfg e with heq | ⟨_, _, _, heq⟩ <;> rw [heq]
+  rcases stepCfg_cases V R cfg e with heq | ⟨_, _, heq⟩ | ⟨_, _, _, _, heq⟩ <;> rw [heq]
 
 theorem finv_run (R : Route) (hck : R.ck ≠ .persistent) (hpp : R.pe = true → R.passErr = false)
-    (init : Option Val) (sch : List Entry) (hpf : ∀ e ∈ sch, PFault e.fault) (cfg : Cfg) (hnow : 1 ≤ cfg.now)
+    (init : Option Val) (sch : List Entry) (hpf : ∀ e ∈ sch, PFault e.fault) (hev : ∀ e ∈ sch, EvictOK R e)
+    (cfg : Cfg) (hn : Nodes0 cfg) (hnow : 1 ≤ cfg.now)
     (h : FInv R init cfg) : FInv R init (run .repaired R cfg sch) := by
   induction sch generalizing cfg with
   | nil => exact h
   | cons e rest ih =>
-    exact ih (fun e' he' => hpf e' (List.mem_cons_of_mem _ he')) _
+    exact ih (fun e' he' => hpf e' (List.mem_cons_of_mem _ he')) (fun e' he' => hev e' (List.mem_cons_of_mem _ he')) _
+      (nodes0_stepCfg R cfg e hn)
       (by rw [stepCfg_now]; omega)
-      (finv_stepCfg R hck hpp init cfg e (hpf e (List.mem_cons_self ..)) hnow h)
+      (finv_stepCfg R hck hpp init cfg e (hpf e (List.mem_cons_self ..)) (hev e (List.mem_cons_self ..)) hn hnow h)
 
 
 theorem isKV_op {o : Op} (h : isKV o = true) (hw : o ≠ .wbk) : isKVop o := by
@@ -1495,7 +1562,8 @@ theorem readOk_final {R : Route} (hpp : R.pe = true → R.passErr = false) {init
 
 theorem fresh_main (R : Route) (c s p : Option Val) (ops : List Op) (sch : List Entry)
     (hck : R.ck ≠ .persistent) (hpp : R.pe = true → R.passErr = false) (hops : ∀ o ∈ ops, o ≠ .wbk)
-    (hf : ∀ e ∈ sch, e.fault = none ∨ e.fault = some .persistent) (hco : coherent R c s p = true) :
+    (hf : ∀ e ∈ sch, e.fault = none ∨ e.fault = some .persistent) (hev : ∀ e ∈ sch, EvictOK R e)
+    (hco : coherent R c s p = true) :
     holdsFresh (initVal R c s p) (model .repaired R c s p ops sch).ths
       (model .repaired R c s p ops sch).fget = true := by
   unfold holdsFresh
@@ -1511,7 +1579,7 @@ theorem fresh_main (R : Route) (c s p : Option Val) (ops : List Op) (sch : List 
       obtain ⟨t, ht, rfl⟩ := List.mem_map.1 this
       simp only [model, obsOf, List.all_eq_true, List.mem_map] at hall
       exact isKV_op (hall _ ⟨t, ht, rfl⟩) (hops _ ho)
-    have hinv := finv_run R hck hpp _ sch hf _ (by simp [initCfg])
+    have hinv := finv_run R hck hpp _ sch hf hev _ (nodes0_init c s p ops) (by simp [initCfg])
       (finv_init R hpp c s p ops hco hallops)
     have hths : (model .repaired R c s p ops sch).ths =
         (run .repaired R (initCfg c s p ops) sch).threads.map toObs := rfl
